@@ -1880,6 +1880,21 @@ def where_clause_rule(syn, prop, rule="C16.R11"):
         if "Type::Path" in pat and "qself" in pat and "qself:None" not in pat:
             body = S.squash(a["body"])
             proj = re.search(r"\.insert\(ty\)", body) is not None
+    # ... but only a projection whose self type *is* a parameter (or a parameter's associated type).  For `<Vec<T> as TS>::X` the
+    # bound on T lets rustc normalise the projection; an explicit where-bound on it makes rustc pick the where-clause candidate
+    # and then fail to prove it at the impl's own uses (E0277), so such a bound turns a compiling derive into a failing one.
+    over = False
+    for a in (ms[0]["arms"] if ms else []):
+        pat = S.squash(a["pat"])
+        if "Type::Path" in pat and "qself" in pat and "qself:None" not in pat:
+            body = S.squash(a["body"])
+            guarded = re.search(r"if\w+\.contains\(&?qself\.ty", body) is not None or re.search(r"ifis_type_param|matches!\(.*qself\.ty", body) is not None
+            over = proj and not guarded
+    r.inst(fn=uf["qual"], projection_bound_limited_to_parameter_self_types=not over)
+    if over:
+        r.fail(prop, "where-clause-bounds-normalisable-projection used_type_params",
+               "every projection over anything that mentions a parameter gets a bound, also `<Vec<T> as TS>::OptionInnerType`: `#[ts(optional_fields)] struct P<T> { rest: Vec<T> }` then fails with E0277 although `T: TS` is all that is needed",
+               uf["file"], uf["line"])
     r.inst(fn=uf["qual"], bounds_projection_itself=proj)
     if not proj:
         r.fail(prop, "where-clause-omits-projection used_type_params",
